@@ -151,13 +151,14 @@ class _StructQ:
         self.__dict__.update(q.__dict__)
 
 
-def run_all(rep, templates, workers=None, label=""):
+def run_all(rep, templates, workers=None, label="", fn=None):
+    fn = fn or run_template
     workers = workers or min(16, os.cpu_count() or 4)
     t0 = time.time()
     results = []
     ctx = mp.get_context("fork")
     with cf.ProcessPoolExecutor(max_workers=workers, mp_context=ctx) as ex:
-        futs = {ex.submit(run_template, t): t for t in templates}
+        futs = {ex.submit(fn, t): t for t in templates}
         for f in cf.as_completed(futs):
             t = futs[f]
             try:
@@ -186,3 +187,262 @@ def feed(rep, r):
         rep.harness_error("%s: %s" % (oid, r.get("reason")))
     else:
         rep.ob(oid, "undecided", r.get("solver_s", 0), nontrivial=False, script=r.get("script"), notes=r.get("notes"))
+
+
+# ---------------------------------------------------------------------- C10: result invariants / structure
+_KINDS_OK = {"Integer": ("int",), "Number": ("real", "int"), "String": ("str",), "Boolean": ("bool",), "Date": ("date",),
+             "TimePeriod": ("str",), "TimeInterval": ("str",), "Duration": ("str",)}
+
+
+def _check_concrete_dataset(ds, sem):
+    """invariants of a returned vtlengine Dataset against its semantic structure -> list of problems"""
+    import pandas as pd
+    probs = []
+    cols = list(ds.data.columns)
+    want = list(sem.components.keys())
+    if cols != want:
+        probs.append("columns %s differ from semantic components %s" % (cols, want))
+    for n, c in sem.components.items():
+        rc = ds.components.get(n)
+        if rc is None:
+            probs.append("component %s missing" % n)
+            continue
+        if (rc.role, rc.data_type, rc.nullable) != (c.role, c.data_type, c.nullable):
+            probs.append("component %s: (%s,%s,%s) vs semantic (%s,%s,%s)" % (n, rc.role, rc.data_type.__name__, rc.nullable, c.role, c.data_type.__name__, c.nullable))
+    ids = [n for n, c in sem.components.items() if c.role.name == "IDENTIFIER" and n in cols]
+    df = ds.data
+    for n, c in sem.components.items():
+        if n not in cols:
+            continue
+        nn = df[n].isna()
+        if (c.role.name == "IDENTIFIER" or not c.nullable) and nn.any():
+            probs.append("null in non-nullable component %s" % n)
+        tn = c.data_type.__name__
+        for v in df[n][~nn]:
+            ok = True
+            if tn == "Integer":
+                # value-level conformity: an integral number (the pandas dtype - int64 / Int64 / float64 - is C-level, outside)
+                pv = v.item() if hasattr(v, "item") else v
+                ok = not isinstance(pv, (bool, str)) and isinstance(pv, (int, float)) and float(pv) == int(pv)
+            elif tn == "Number":
+                ok = not isinstance(v, (str, bool)) and (isinstance(v, (int, float)) or hasattr(v, "dtype"))
+            elif tn == "Boolean":
+                ok = isinstance(v, (bool,)) or str(getattr(v, "dtype", "")) == "bool"
+            elif tn == "String":
+                ok = isinstance(v, str)
+            if not ok:
+                probs.append("value %r of component %s is not a valid %s" % (v, n, tn))
+                break
+    if ids:
+        if df.duplicated(subset=ids).any():
+            probs.append("duplicate identifier keys")
+    elif len(df) > 1:
+        probs.append("dataset without identifiers has %d datapoints" % len(df))
+    return probs
+
+
+def run_invariants(tpl):
+    t0 = time.time()
+    out = dict(id=tpl["id"], status="undecided", solver_s=0.0, notes=[])
+    try:
+        from vt.sqlsmt import equiv, harness as H
+        from vt.sqlsmt.sym import Unsupported, same, FALSE
+        from vt.astb import render
+        from vt import realrun as R
+        from vtlengine.Exceptions import VTLEngineException
+        from vtlengine.Model import Dataset
+        out["script"] = render(tpl["ast"])
+        case = H.Case(tpl["id"], tpl["ast"], tpl["structs"], nrows=tpl.get("nrows", 2), scalars=tpl.get("scalars"),
+                      scalar_values=tpl.get("scalar_values"), opts=tpl.get("opts")).build()
+        try:
+            case.encode()
+        except (Unsupported, sqlglot_errors.ParseError) as e:
+            out.update(status="not_encoded", reason="SQL: %s" % str(e)[:200])
+            return out
+        ctx = case.ctx
+        sem_all = R.semantic_ast(tpl["ast"], case.struct_dict)
+        queries = []
+        for name, T in case.results.items():
+            sem = case.pipe.output_datasets.get(name)
+            if sem is None:
+                continue
+            ids = [n for n, c in sem.components.items() if c.role.name == "IDENTIFIER"]
+            conds = []
+            static = []
+            for n, c in sem.components.items():
+                if n not in T.cols:
+                    static.append("component %s predicted by semantic analysis is not produced by the SQL" % n)
+                    continue
+                kinds = {r.cols[n].kind for r in T.rows} - {"null"}
+                okk = _KINDS_OK.get(c.data_type.__name__)
+                for r in T.rows:
+                    sv = r.cols[n]
+                    if c.role.name == "IDENTIFIER" or not c.nullable:
+                        conds.append(z3.And(r.present, sv.null))
+                    if okk and sv.kind == "real" and c.data_type.__name__ == "Integer" and not H._has_uf(sv.val):
+                        conds.append(z3.And(r.present, z3.Not(sv.null), z3.ToReal(z3.ToInt(sv.val)) != sv.val))
+                    elif okk and sv.kind not in okk + ("null",):
+                        static.append("component %s declared %s but the SQL column is %s" % (n, c.data_type.__name__, sv.kind))
+                        break
+            present_ids = [i for i in ids if i in T.cols]
+            if ids and len(present_ids) == len(ids):
+                conds.append(equiv.dup_keys(T, ids))
+            elif not ids:
+                rows = T.rows
+                conds += [z3.And(a.present, b.present) for i, a in enumerate(rows) for b in rows[i + 1:]]
+            s = z3.Solver()
+            s.set("timeout", tpl.get("timeout_ms", 20000))
+            s.add(*ctx.assume)
+            s.add(z3.Not(ctx.error_flag()))
+            # reachability twin + witness input for the concrete structure comparison
+            s.push()
+            s.add(z3.Or(*[r.present for r in T.rows]))
+            t = time.time()
+            rr = s.check()
+            out["solver_s"] += time.time() - t
+            wit = s.model() if rr == z3.sat else None
+            s.pop()
+            if rr == z3.unsat:
+                s2 = z3.Solver()
+                s2.add(*ctx.assume)
+                s2.add(z3.Or(*[r.present for r in T.rows]))
+                if s2.check() == z3.sat:
+                    out.update(status="not_encoded", reason="every execution with a datapoint raises a runtime error: no result to constrain")
+                else:
+                    out.update(status="harness_error", reason="vacuous: no datapoint of %s reachable" % name)
+                return out
+
+            def concrete(model, why):
+                subs = equiv.model_subs(case, model)
+                cin, dfs = equiv.frames(case, subs)
+                try:
+                    res = R.run_ast(case.ast, case.struct_dict, dfs)
+                except VTLEngineException as e:
+                    return None, cin, "VTL error %s" % type(e).__name__
+                except Exception as e:
+                    return ["run() raised raw %s: %s" % (type(e).__name__, str(e)[:150])], cin, None
+                got = res[name]
+                if not isinstance(got, Dataset) or got.data is None:
+                    return None, cin, "not a dataset"
+                return _check_concrete_dataset(got, sem_all[name]), cin, None
+            if wit is not None:
+                probs, cin, skip = concrete(wit, "structure")
+                if probs:
+                    out.update(status="violated", key="%s:%s" % (tpl["id"], "structure"), what="; ".join(probs)[:400],
+                               info=dict(inputs=H._jsonable(cin), what="; ".join(probs)[:600], result=name))
+                    return out
+            if static:
+                out["notes"].append("static: " + "; ".join(static))
+            if conds:
+                s.add(z3.Or(*conds))
+                t = time.time()
+                r = s.check()
+                dt = time.time() - t
+                out["solver_s"] += dt
+                queries.append(dict(result=name, verdict=str(r), solver_s=round(dt, 3)))
+                if r == z3.sat:
+                    probs, cin, skip = concrete(s.model(), "invariant")
+                    if probs:
+                        out.update(status="violated", key="%s:%s" % (tpl["id"], "invariant"), what="; ".join(probs)[:400],
+                                   info=dict(inputs=H._jsonable(cin), what="; ".join(probs)[:600], result=name))
+                        return out
+                    out.update(status="harness_error", reason="invariant counterexample for %s does not reproduce through run(): %s %s" % (name, H._jsonable(cin), skip))
+                    return out
+                if r != z3.unsat:
+                    out["notes"].append("query %s: %s" % (name, r))
+                    out["status"] = "undecided"
+                    out["queries"] = queries
+                    return out
+        out["queries"] = queries
+        out["status"] = "discharged"
+        return out
+    except Exception as e:  # noqa
+        out.update(status="harness_error", reason="driver exception %s: %s" % (type(e).__name__, str(e)[:300]), tb=traceback.format_exc()[-1500:])
+        return out
+    finally:
+        out["wall_s"] = round(time.time() - t0, 2)
+
+
+# ---------------------------------------------------------------------- C33: self-composition under two physical orders
+def run_order(tpl):
+    t0 = time.time()
+    out = dict(id=tpl["id"], status="undecided", solver_s=0.0, notes=[])
+    try:
+        from vt.sqlsmt import equiv, harness as H
+        from vt.sqlsmt.sym import Unsupported, Row, Table
+        from vt.astb import render
+        from vt import realrun as R
+        from vtlengine.Exceptions import VTLEngineException
+        out["script"] = render(tpl["ast"])
+        case = H.Case(tpl["id"], tpl["ast"], tpl["structs"], nrows=tpl.get("nrows", 2), scalars=tpl.get("scalars"),
+                      scalar_values=tpl.get("scalar_values"), opts=tpl.get("opts")).build()
+        try:
+            case.encode()
+        except (Unsupported, sqlglot_errors.ParseError) as e:
+            out.update(status="not_encoded", reason="SQL: %s" % str(e)[:200])
+            return out
+        ctx = case.ctx
+        ords = [v for v in ctx.input_vars if v.sort() == z3.IntSort() and ".o" in str(v) and str(v).split(".")[-1].startswith("o")]
+        ords2 = [z3.Int(str(v) + "'") for v in ords]
+        sub = list(zip(ords, ords2))
+        assume2 = [z3.substitute(a, *sub) for a in ctx.assume]
+        queries = []
+        for name, T in case.results.items():
+            rows2 = [Row(z3.substitute(r.present, *sub), {c: type(v)(v.kind, z3.substitute(v.null, *sub), z3.substitute(v.val, *sub) if v.val is not None else None, v.fields)
+                                                          for c, v in r.cols.items()}, r.ord) for r in T.rows]
+            if any(v.kind == "struct" for r in T.rows for v in r.cols.values()):
+                out.update(status="not_encoded", reason="struct column")
+                return out
+            T2 = Table(T.cols, rows2)
+            depends = any(not z3.eq(a.present, b.present) or any(a.cols[c].val is not None and (not z3.eq(a.cols[c].val, b.cols[c].val) or not z3.eq(a.cols[c].null, b.cols[c].null)) for c in T.cols)
+                          for a, b in zip(T.rows, rows2))
+            s = z3.Solver()
+            s.set("timeout", tpl.get("timeout_ms", 20000))
+            s.add(*ctx.assume)
+            s.add(*assume2)
+            s.push()
+            s.add(z3.Or(*[r.present for r in T.rows]))
+            if s.check() == z3.unsat:
+                out.update(status="harness_error", reason="vacuous")
+                return out
+            s.pop()
+            s.add(z3.Not(ctx.error_flag()))
+            s.add(equiv.rows_differ(T, T2, T.cols))
+            t = time.time()
+            r = s.check()
+            dt = time.time() - t
+            out["solver_s"] += dt
+            queries.append(dict(result=name, verdict=str(r), solver_s=round(dt, 3), result_mentions_physical_order=bool(depends)))
+            if r == z3.sat:
+                m = s.model()
+                subs1 = equiv.model_subs(case, m)
+                subs2 = [(v, m.eval(z3.substitute(v, *sub), model_completion=True)) for v in ctx.input_vars]
+                outs = []
+                for sb in (subs1, subs2):
+                    cin, dfs = equiv.frames(case, sb)
+                    try:
+                        res = R.run_ast(case.ast, case.struct_dict, dfs)
+                        cols, rows = R.rows(res[name])
+                        outs.append((cin, (cols, rows)))
+                    except VTLEngineException as e:
+                        outs.append((cin, "VTL error %s" % type(e).__name__))
+                if outs[0][1] != outs[1][1]:
+                    out.update(status="violated", key="%s:order" % tpl["id"], what="result depends on the physical order of input rows",
+                               info=dict(inputs=H._jsonable(outs[0][0]), inputs_permuted=H._jsonable(outs[1][0]), observed=str(outs[0][1])[:400],
+                                         observed_permuted=str(outs[1][1])[:400], what="result depends on the physical order of input rows"))
+                    return out
+                out.update(status="harness_error", reason="order counterexample for %s does not reproduce: %s" % (name, H._jsonable(outs[0][0])))
+                return out
+            if r != z3.unsat:
+                out["status"] = "undecided"
+                out["notes"].append("query %s: %s" % (name, r))
+                out["queries"] = queries
+                return out
+        out["queries"] = queries
+        out["status"] = "discharged"
+        return out
+    except Exception as e:  # noqa
+        out.update(status="harness_error", reason="driver exception %s: %s" % (type(e).__name__, str(e)[:300]), tb=traceback.format_exc()[-1500:])
+        return out
+    finally:
+        out["wall_s"] = round(time.time() - t0, 2)
